@@ -61,6 +61,7 @@ class PrinterModel:
                 helpers.update(self.helper.nested)
                 helpers.pop(self.helper.name, None)
                 test = inline_pure_helpers(n.test, helpers)
+                test = self._resolve_names(test)
                 n = ast.If(test=test, body=n.body, orelse=n.orelse)
                 mentions_row = any(isinstance(x, ast.Attribute) and x.attr == 'priority' for x in ast.walk(n.test))
                 mentions_assoc = any(isinstance(x, ast.Attribute) and x.attr == 'assoc' for x in ast.walk(n.test))
@@ -73,6 +74,37 @@ class PrinterModel:
                 self.tests[key] = n.test
         for k in ('binary:arg1_ast', 'binary:arg2_ast', 'unary:arg_ast', 'appl:fun_ast', 'appl:arg_ast'):
             need(k in self.tests, 'pprint.get_ast_term.helper: bracket decision %s not found' % k)
+
+    def _resolve_names(self, test, depth=0):
+        """the bracket decision with the locals it was split into read through: a name given a boolean value once (`left_assoc = ..`), and a
+        name assigned in both branches of one `if` (`if c: b = X` / `else: b = Y`, read as `X if c else Y`)"""
+        import copy
+        if depth > 4:
+            return test
+        helper = self.helper.node
+        single, branched = {}, {}
+        counts = {}
+        for a in walk_no_nested(helper):
+            if isinstance(a, ast.Assign) and len(a.targets) == 1 and isinstance(a.targets[0], ast.Name):
+                counts[a.targets[0].id] = counts.get(a.targets[0].id, 0) + 1
+        for a in walk_no_nested(helper):
+            if isinstance(a, ast.Assign) and len(a.targets) == 1 and isinstance(a.targets[0], ast.Name) and counts[a.targets[0].id] == 1 and \
+                    isinstance(a.value, (ast.Compare, ast.BoolOp, ast.UnaryOp)):
+                single[a.targets[0].id] = a.value
+            if isinstance(a, ast.If) and len(a.body) == 1 and len(a.orelse) == 1 and all(
+                    isinstance(x, ast.Assign) and len(x.targets) == 1 and isinstance(x.targets[0], ast.Name) for x in (a.body[0], a.orelse[0])) and \
+                    a.body[0].targets[0].id == a.orelse[0].targets[0].id and counts.get(a.body[0].targets[0].id) == 2:
+                branched[a.body[0].targets[0].id] = ast.IfExp(test=a.test, body=a.body[0].value, orelse=a.orelse[0].value)
+        model = self
+
+        class T(ast.NodeTransformer):
+            def visit_Name(self, node):
+                if isinstance(node.ctx, ast.Load) and node.id in single:
+                    return model._resolve_names(copy.deepcopy(single[node.id]), depth + 1)
+                if isinstance(node.ctx, ast.Load) and node.id in branched:
+                    return model._resolve_names(copy.deepcopy(branched[node.id]), depth + 1)
+                return node
+        return ast.fix_missing_locations(T().visit(copy.deepcopy(test)))
 
     def _eval(self, e, env):
         if isinstance(e, ast.Compare) and len(e.ops) == 1 and isinstance(e.ops[0], (ast.In, ast.NotIn)) and isinstance(e.comparators[0], (ast.Tuple, ast.List, ast.Set)):
